@@ -296,8 +296,28 @@ static int op_alloc_ex(int op, size_t n, size_t al, size_t off, int hidx, int fi
   log_ret_begin(aops[op].name, &r); log_obs(-1, -1, 3); log_ret_end();
   return (p != NULL ? s : -1);
 }
+/* the small-size fast path of the aligned entry points: it takes the head of an existing page's free list if that block happens to
+   satisfy (p + offset) % alignment == 0.  Blocks of a class whose size is not a multiple of the alignment cycle through all
+   residues, so a burst of requests (after a few plain blocks of the class made sure the page exists) meets heads of every residue. */
+static void op_free(void);
+static void op_aligned_small_burst(void) {
+  static const size_t cls[] = {48, 80, 112, 144, 176, 208, 240, 272, 336, 400, 464, 528, 656, 784, 912};
+  size_t n = cls[vf_randn(sizeof(cls) / sizeof(size_t))] - (size_t)vf_randn(8);
+  size_t al = (size_t)16 << vf_randn(4);            /* 16 .. 128 */
+  while (al > n) al >>= 1;
+  size_t off = 8 * (1 + (size_t)vf_randn(al >= 16 ? al / 8 - 1 : 1));      /* a multiple of 8 in (0, al) */
+  if (!word_offsets && vf_randn(3) == 0) off = 1 + (size_t)vf_randn(al - 1);
+  int hi = pick_heap_idx();
+  for (int i = 0; i < 3; i++) op_alloc_ex(A_heap_malloc, n, 0, 0, hi, fill_mode_default);
+  for (int i = 0; i < 7; i++) {
+    if (nslots_used + 2 >= maxlive) { op_free(); }
+    op_alloc_ex(vf_randn(2) ? A_heap_malloc_aligned_at : A_heap_zalloc_aligned_at, n, al, off, hi, fill_mode_default);
+    if (vf_randn(3) == 0) op_alloc_ex(A_heap_malloc, n, 0, 0, hi, fill_mode_default);
+  }
+}
 static void op_alloc(void) {
   int op;
+  if (only_aligned && vf_randn(12) == 0) { op_aligned_small_burst(); return; }
   do { op = (int)vf_randn(A_COUNT); }
   while ((only_zero_ops && !(aops[op].fl & F_ZERO)) || (only_aligned && !(aops[op].fl & (F_AL | F_PAGEAL))) || (allow_heaps == 0 && (aops[op].fl & F_HEAP)));
   size_t n = pick_size();
@@ -440,8 +460,19 @@ static void op_zero_chain(void) {
   static const int zops[] = { A_zalloc, A_calloc, A_zalloc_aligned, A_heap_zalloc, A_heap_calloc, A_zalloc_small, A_calloc_aligned };
   static const int gops[] = { R_rezalloc, R_recalloc, R_heap_rezalloc, R_heap_recalloc, R_rezalloc_aligned, R_recalloc_aligned };
   size_t n = pick_size(); if (n > 3000000) n = vf_randn(300000);
+  size_t limit = max_size;
+  if (vf_randn(10) == 0 && nslots_used + 3 < maxlive) {
+    /* a chain of huge blocks (one block per segment, usable size rounded far above the request): first dirty the memory such a
+       block will get -- a plain block of that size, written up to its usable size and freed -- then start the chain just below it */
+    size_t hn = ((size_t)17 << 20) + (size_t)vf_randn((size_t)7 << 20);
+    int d = op_alloc_ex(A_malloc, hn, 0, 0, 0, 0);
+    if (d >= 0) op_free_slot(d, FR_free);
+    n = hn - 1 - (size_t)vf_randn(300000);
+    limit = (size_t)64 << 20;
+  }
   int before = next_id;
   int op = zops[vf_randn(7)];
+  if (limit > max_size && op == A_zalloc_small) op = A_zalloc;
   size_t al = (aops[op].fl & F_AL) ? pick_align(n) : 0; if (al > 65536) al = 64;
   op_alloc_ex(op, n, al, 0, pick_heap_idx(), 1);
   if (next_id == before) return;
@@ -451,7 +482,7 @@ static void op_zero_chain(void) {
     size_t o = slots[s].req, us = slots[s].us, nn;
     switch (vf_randn(5)) { case 0: nn = o + 1 + vf_randn(8); break; case 1: nn = us; break; case 2: nn = us + 1 + vf_randn(32); break;
                            case 3: nn = o + (us > o ? vf_randn(us - o + 1) : 0); break; default: nn = o + o / 2 + vf_randn(64); }
-    if (nn < o) nn = o; if (nn > max_size) break;
+    if (nn < o) nn = o; if (nn > limit) break;
     int gop = gops[vf_randn(6)];
     if ((rops[gop].fl & F_AL) && slots[s].al == 0) gop = R_rezalloc;
     int id_before = next_id;
